@@ -31,9 +31,13 @@ the event's own feature / rule / scenario and adds it to the open suite; Feature
 report; a parser error is one suite with one failure case; the XML is written on run-Finished only.  (R9) terminal writer: per event
 shape one printing routine is called for the event's own step (and error), and it is the routine of the matching status (style sets
 `ok` / `skipped` / `err`); Hook Started / Passed and Scenario::Finished print nothing.
+Added in the fourth seeded round: (R10) the JSON look-up comparator also tells features apart (every row that can answer true compared the
+key's path and name); (R7) the log buffer is emptied at a scenario boundary; (R12) terminal writer: the walk over a matched step's capture
+groups emits consecutive slices from the old cursor to the new one, each once, or leaves the cursor alone; it starts at 0 and the tail is
+emitted once (the step text is reproduced, whatever the styling); (R1-R3 keep the libtest table) .
 """
 DECLINED = ["text of any report beyond the recorded status / target list / message presence (R7-R9): escaping, well-formedness, indentation, durations",
-            "terminal writer: cursor arithmetic of re-printed lines and capture highlighting (value-level)", "suite totals as numbers"]
+            "terminal writer: cursor arithmetic of re-printed lines (lines_to_clear, value-level) and which style a piece of the step text gets", "suite totals as numbers"]
 ASSUMPTIONS = ["Libtest sits behind Normalize (documented), so a feature's events are contiguous"]
 
 LT = "writer::libtest::Libtest"
@@ -1039,4 +1043,84 @@ def r11(F, R):
     c12.r7(F, R)
 
 
-RULES = [("R11", r11, None), ("R10", r10, ["all", "json"]), ("R9", r9, None), ("R8", r8, ["all", "junit"]), ("R7", r7, ["all", "json"]), ("R6", r6, ["all", "json"]), ("R5", r5, ["all", "junit"]), ("R1", r1, None), ("R2", r2, None), ("R3", r3, None), ("R4", r4, None)]
+def r12(F, R):
+    """Terminal writer (and the JUnit output rendered through it): the text of a matched step is reproduced piece by piece — the
+    routine that walks the capture groups keeps a cursor into the text; every step of the walk either emits exactly the text between the
+    old cursor and the new one (consecutive slices, each pushed once, in order) or leaves the cursor where it was; the walk starts at 0
+    and what follows the last cursor up to the end of the text is emitted once.  (Which style each piece gets is not decided.)"""
+    from . import deep as D
+    if not any(b.name.startswith("writer::basic::") for b in F.crate_bodies()):
+        return
+    roots = [b for b in F.crate_bodies() if b.kind in ("Fn", "AssocFn") and b.name.startswith("writer::basic::")
+             and any(callee_is(t, r"CaptureLocations::get$") for nb in F.nested(b) for _, t in nb.calls())]
+    if len(roots) != 1:
+        raise Unverifiable(f"capture-walking routine of the terminal writer: {len(roots)}")
+    root = roots[0]
+    rp = D.Deep(F, root, max_paths=50).run()
+    if len(rp) != 1 or rp[0].cut:
+        raise Unverifiable("capture walker: the routine is not straight-line around one fold (unrecognised form)")
+    rp = rp[0]
+    folds = [e for e in rp.effects if e[0] == "call" and re.search(r"Iterator::fold$", e[1]) and len(e[2]) == 3]
+    if len(folds) != 1 or folds[0][2][2][0] != "closure" or folds[0][2][1][0] != "tuple":
+        raise Unverifiable("capture walker: no single `fold((text, cursor), step)` (unrecognised form)")
+    fold = folds[0]
+    init = fold[2][1][1]
+    ks = [i for i, x in enumerate(init) if x[0] == "const"]
+    if len(init) != 2 or len(ks) != 1:
+        raise Unverifiable("capture walker: accumulator is not (text, cursor)")
+    k = ks[0]
+    R.check(init[k] == ("const", 0), "terminal/step-text/starts-at-0", root, "the cursor starts at 0", f"the walk over the step text starts at {init[k]}, not at its beginning")
+    step = F.bodies.get(fold[2][2][1]) or next((b for b in F.crate_bodies() if b.name == fold[2][2][1]), None)
+    if step is None:
+        raise Unverifiable("capture walker: step closure body")
+    is_slice = lambda e: e[0] == "call" and re.search(r"Index<.*>.*::index$|str::traits.*::index$", e[1]) and len(e[2]) == 2 and D.is_variant(e[2][1], "std::ops::Range", "Range")
+
+    def pushed_once_in_order(p, slices, target_ok):
+        pushes = [e for e in p.effects if e[0] == "call" and re.search(r"String::push_str$|fmt::Write::write_str$", e[1]) and target_ok(e[2][0])]
+        order = []
+        for pu in pushes:
+            ids = [sl[4] for sl in slices if D.mentions(pu[2][1], lambda x, sl=sl: isinstance(x, tuple) and len(x) == 4 and x[0] == "call" and x[3] == sl[4])]
+            order.extend(ids)
+        return order == [sl[4] for sl in slices]
+
+    old = ("field", ("arg", 2), k)
+    rows = D.Deep(F, step, max_paths=200).run()
+    if not rows or any(p.cut for p in rows):
+        raise Unverifiable("capture walker: step closure has a loop or no rows")
+    bases = set()
+    n_emit = 0
+    for p in rows:
+        slices = [e for e in p.effects if is_slice(e)]
+        bases |= {_norm(sl[2][0]) for sl in slices}
+        if not (isinstance(p.ret, tuple) and p.ret[0] == "tuple" and len(p.ret[1]) == 2):
+            raise Unverifiable("capture walker: step closure does not return (text, cursor)")
+        new = p.ret[1][k]
+        conds = " ∧ ".join(f"{D.fmt(step, a)[:50]}={o}" for a, o in p.conds) or "always"
+        if not slices:
+            R.check(_norm(new) == _norm(old), "terminal/step-text/cursor-moves-only-with-text", step, "nothing emitted => cursor unchanged",
+                    f"[{conds}] no text is emitted but the cursor is set to `{D.fmt(step, new)[:40]}`: the text between the two positions is printed twice (cursor moved back) or lost")
+            continue
+        n_emit += 1
+        rng = [(sl[2][1][3][0], sl[2][1][3][1]) for sl in slices]
+        chain = _norm(rng[0][0]) == _norm(old) and all(_norm(rng[i][1]) == _norm(rng[i + 1][0]) for i in range(len(rng) - 1)) and _norm(rng[-1][1]) == _norm(new)
+        R.check(chain, "terminal/step-text/pieces-are-consecutive", step, f"{len(rng)} consecutive slices from the old cursor to the new one",
+                f"[{conds}] the emitted slices {[(D.fmt(step, a)[:20], D.fmt(step, b)[:20]) for a, b in rng]} do not lead from the old cursor to the new one `{D.fmt(step, new)[:30]}`")
+        R.check(pushed_once_in_order(p, slices, lambda t: _norm(t) == _norm(("field", ("arg", 2), 1 - k))), "terminal/step-text/pieces-pushed-once", step,
+                "each slice is appended once, in order", f"[{conds}] the slices of the step text are not each appended exactly once, in order, to the text being built")
+    R.check(n_emit >= 1 and len(bases) == 1, "terminal/step-text/walk-emits", step, "the walk emits slices of one text", f"{n_emit} emitting rows over {len(bases)} texts")
+    # the tail
+    fterm = lambda x: isinstance(x, tuple) and len(x) == 4 and x[0] == "call" and x[3] == fold[4]
+    tails = [e for e in rp.effects if is_slice(e)]
+    ok = len(tails) == 1 and tails[0][2][1][3][0][0] == "field" and fterm(tails[0][2][1][3][0][1]) and tails[0][2][1][3][0][2] == k and \
+        tails[0][2][1][3][1][0] == "call" and re.search(r"str>?::len$", tails[0][2][1][3][1][1]) and _norm(tails[0][2][1][3][1][2][0]) == _norm(tails[0][2][0])
+    R.check(ok, "terminal/step-text/tail", root, "text[cursor..len] after the walk", "after the walk the rest of the step text (from the last cursor to its end) is not taken as one slice")
+    if ok:
+        tgt = lambda t: D.mentions(t, fterm) and D.mentions(t, lambda x: isinstance(x, tuple) and x[0] == "field" and fterm(x[1]) and x[2] == 1 - k)
+        R.check(pushed_once_in_order(rp, tails, tgt) and D.mentions(rp.ret, fterm), "terminal/step-text/tail-pushed-once", root, "appended once, the built text is returned",
+                "the rest of the step text is not appended exactly once to the text that is returned")
+        ups = [_norm(u) for u in fold[2][2][2]]
+        R.check(_norm(tails[0][2][0]) in ups, "terminal/step-text/same-text", root, "walk and tail slice the same text", "the walk and the tail slice different strings")
+    R.floor(7)
+
+
+RULES = [("R12", r12, None), ("R11", r11, None), ("R10", r10, ["all", "json"]), ("R9", r9, None), ("R8", r8, ["all", "junit"]), ("R7", r7, ["all", "json"]), ("R6", r6, ["all", "json"]), ("R5", r5, ["all", "junit"]), ("R1", r1, None), ("R2", r2, None), ("R3", r3, None), ("R4", r4, None)]
